@@ -109,6 +109,7 @@ type scriptParams struct {
 	Rec    string `vgirpc:"rec"`
 	Kind   string `vgirpc:"kind"` // dynamic method only: ex | pr
 	Hdr    int64  `vgirpc:"hdr"`  // > 0: StreamResult.Header carries this value
+	Dual   int64  `vgirpc:"dual"` // static methods: the state type implements both stream interfaces
 }
 
 var scriptParamsSchema = arrow.NewSchema([]arrow.Field{
@@ -117,6 +118,7 @@ var scriptParamsSchema = arrow.NewSchema([]arrow.Field{
 	{Name: "rec", Type: arrow.BinaryTypes.String},
 	{Name: "kind", Type: arrow.BinaryTypes.String},
 	{Name: "hdr", Type: arrow.PrimitiveTypes.Int64},
+	{Name: "dual", Type: arrow.PrimitiveTypes.Int64},
 }, nil)
 
 // scriptHeader is the stream header the scripted methods return.
@@ -203,7 +205,11 @@ func scriptStreamHandler(kind string) func(context.Context, *vgirpc.CallContext,
 		if k == "" {
 			k = p.Kind
 		}
-		res := &vgirpc.StreamResult{OutputSchema: scriptValueSchema, State: newScriptState(k, p.Cancel, p.Prog, p.Rec)}
+		sk := k
+		if kind != "" && p.Dual != 0 {
+			sk = k + "+"
+		}
+		res := &vgirpc.StreamResult{OutputSchema: scriptValueSchema, State: newScriptState(sk, p.Cancel, p.Prog, p.Rec)}
 		if k == "ex" {
 			res.InputSchema = scriptValueSchema
 		}
@@ -325,6 +331,9 @@ func parseStreamCfg(f []string) (streamCfg, bool) {
 		default:
 			return cfg, false
 		}
+	}
+	if cfg.ext {
+		cfg.xin = true // any external-location config also resolves pointer inputs
 	}
 	return cfg, true
 }
@@ -456,8 +465,13 @@ func (e *streamEnv) initBody(method, cancel, prog string) []byte {
 
 // initBodyFull also names the stream kind (for the dynamic method) and a header value (0: none).
 func (e *streamEnv) initBodyFull(method, kind string, hdr int64, cancel, prog string) []byte {
+	return e.initBodyDual(method, kind, hdr, false, cancel, prog)
+}
+
+// initBodyDual: dual = ask a static method for a state type that implements both stream interfaces.
+func (e *streamEnv) initBodyDual(method, kind string, hdr int64, dual bool, cancel, prog string) []byte {
 	mem := memory.NewGoAllocator()
-	cols := make([]arrow.Array, 5)
+	cols := make([]arrow.Array, 6)
 	for i, v := range []string{prog, cancel, e.recID, kind} {
 		b := array.NewStringBuilder(mem)
 		b.Append(v)
@@ -468,6 +482,14 @@ func (e *streamEnv) initBodyFull(method, kind string, hdr int64, cancel, prog st
 	hb.Append(hdr)
 	cols[4] = hb.NewArray()
 	hb.Release()
+	db := array.NewInt64Builder(mem)
+	if dual {
+		db.Append(1)
+	} else {
+		db.Append(0)
+	}
+	cols[5] = db.NewArray()
+	db.Release()
 	batch := array.NewRecordBatch(scriptParamsSchema, cols, 1)
 	for _, c := range cols {
 		c.Release()
@@ -553,15 +575,13 @@ func (e *streamEnv) symOf(v string, learn bool) (string, bool) {
 		if !ok {
 			return "", false
 		}
-		_, isPr := state.(*ScriptPr)
-		_, isPrC := state.(*ScriptPrC)
-		_, isEx := state.(*ScriptEx)
+		isProducer, hasCancel := scriptStateKind(state)
 		cancel := core.Cancel
-		if isPr || isEx {
+		if !hasCancel {
 			cancel = "absent"
 		}
 		e.tokens = append(e.tokens, v)
-		e.info = append(e.info, tokInfo{call: e.callIndex(callID), pos: core.Pos, producer: isPr || isPrC, cancel: cancel})
+		e.info = append(e.info, tokInfo{call: e.callIndex(callID), pos: core.Pos, producer: isProducer, cancel: cancel})
 		return fmt.Sprintf("T%d", len(e.tokens)-1), true
 	}
 	if callID, err := e.hs[0].VerifC16OpenCall([]byte(v)); err == nil {
